@@ -55,6 +55,7 @@ type runner struct {
 	nextID int64
 	db     *litestream.DB
 	acked  []uint64 // replica TXIDs acknowledged by upload/syncandwait
+	noInsert bool
 }
 
 func (r *runner) srcPath() string            { return filepath.Join(r.root, "src", "db") }
@@ -722,8 +723,10 @@ func (r *runner) recoverStages(acked uint64, res *recoverLine) *stageError {
 	if len(stale) > 0 {
 		return stageErr("tmp-after-open", fmt.Errorf("staging files survive Open: %v", stale))
 	}
-	if err := r.insertN(1); err != nil {
-		return stageErr("syncandwait", fmt.Errorf("app insert: %w", err))
+	if !r.noInsert {
+		if err := r.insertN(1); err != nil {
+			return stageErr("syncandwait", fmt.Errorf("app insert: %w", err))
+		}
 	}
 	r.opSyncAndWait()
 	if lastErr != "" {
@@ -788,7 +791,9 @@ func Main(args []string) int {
 	fl := flag.NewFlagSet("scenario", flag.ContinueOnError)
 	name := fl.String("name", "", "scenario: basic|compact|restore|follow|behind|reopen")
 	root := fl.String("root", "", "scenario root directory")
-	phase := fl.String("phase", "run", "run|recover")
+	phase := fl.String("phase", "run", "run|recover|app")
+	appSpec := fl.String("app", "", "phase app: pre=<n>,mode=<none|PASSIVE|FULL|RESTART|TRUNCATE>,post=<n>,close=<0|1>")
+	noInsert := fl.Bool("noinsert", false, "phase recover: do not commit an application row before the first sync")
 	acked := fl.Uint64("acked", 0, "phase recover: TXID acknowledged before the kill (0 = none)")
 	seed := fl.Int64("seed", 1, "PRNG seed for row contents")
 	rounds := fl.Int("rounds", 3, "number of insert+sync rounds")
@@ -813,7 +818,9 @@ func Main(args []string) int {
 	scenarios := map[string]func(){
 		"basic": r.scBasic, "compact": r.scCompact, "restore": r.scRestore,
 		"follow": r.scFollow, "behind": r.scBehind, "reopen": r.scReopen, "restorev3": r.scRestoreV3,
+		"pinned": r.scPinned, "ckptbusy": r.scCkptBusy,
 	}
+	r.noInsert = *noInsert
 
 	defer func() {
 		if v := recover(); v != nil {
@@ -837,6 +844,8 @@ func Main(args []string) int {
 		if r.app != nil {
 			_ = r.astep(r.app.Close)
 		}
+	case "app":
+		return r.runApp(*appSpec)
 	case "recover":
 		res := r.runRecover(*acked)
 		if r.app != nil {
